@@ -47,15 +47,20 @@ def check_lifecycle(run, lc):
     others = [(h, bb) for h in ("on_run", "on_stop", "handle_message") for bb in hooks[h]]
     for need in ("on_run", "on_stop", "handle_message"):
         run.require(len(hooks[need]) >= 1, "O4.1", "hook-present:%s" % need, "no %s call found in the lifecycle (anchor missing)" % need, "%d call site(s)" % len(hooks[need]))
+    # path-sensitive (tagreach): the outcome of on_start may travel as a Result through an (inlined) start-up helper and be
+    # tested again by its caller; "dominated by the Ok arm" is stated as "unreachable on any feasible path avoiding it"
+    import tagreach
+    tg = tagreach.TagReach(b_ := lc.body, cfg)
+    without_ok = tg.reach(0, avoid={ok_arm})
     for h, bb in others:
-        run.require(cfg.dominates(ok_arm, bb), "O4.1", "start-ok-dominates:%s" % h,
+        run.require(bb not in without_ok, "O4.1", "start-ok-dominates:%s" % h,
                     "%s call is reachable without on_start having completed successfully" % h,
-                    "Ok outcome of on_start dominates the %s call" % h, loc=lc.loc(bb))
+                    "every feasible path to this %s call passes the Ok outcome of on_start" % h, loc=lc.loc(bb))
     if lc.poll_fn_bb is not None:
-        run.require(cfg.dominates(ok_arm, lc.poll_fn_bb), "O4.1", "start-ok-dominates:select", "select! reachable without successful on_start",
-                    "Ok outcome of on_start dominates the select!", loc=lc.loc(lc.poll_fn_bb))
+        run.require(lc.poll_fn_bb not in without_ok, "O4.1", "start-ok-dominates:select", "select! reachable without successful on_start",
+                    "the select! is reachable only through the Ok outcome of on_start", loc=lc.loc(lc.poll_fn_bb))
     # O4.2 after a failed on_start: straight to return, no hook, no select
-    after = cfg.reachable_from(err_arm)
+    after = tg.reach(err_arm)
     bad = [(h, bb) for h, bb in others if bb in after] + ([("select", lc.poll_fn_bb)] if lc.poll_fn_bb in after else [])
     run.require(not bad, "O4.2", "start-err-no-hooks", "after a failed on_start the lifecycle can still reach: %s" % bad,
                 "Err outcome of on_start reaches only `return` (no hook, no select)", loc=lc.loc(err_arm))
